@@ -1,4 +1,4 @@
 def run(ctx):
-    from . import plan_proofs, validate_proofs
+    from . import c12_proofs, plan_proofs, validate_proofs
 
-    return plan_proofs.run(ctx) + " " + validate_proofs.run(ctx, "C19")
+    return plan_proofs.run(ctx) + " " + validate_proofs.run(ctx, "C19") + c12_proofs.run_plan_obligations(ctx, "C19")
